@@ -775,6 +775,19 @@ def _tier_after(which, op):
                                  'residual_in': args.get('residual_data'), 'residual_out': ret})
         if op == 'in' and ret == 0:
             tr.stored_shadow.add(name)
+        if op == 'out' and ret == 0 and cur and cur.get('kind') in ('move_h2c', 'move_c2h'):
+            # 'out' is the second call of a transfer step in both directions: this is the
+            # instant at which the move is complete (the generator itself returns one step
+            # later, when another move may already have picked the observation up again)
+            try:
+                bs = probe.buffer_state(tr.sim.buffer) if tr.sim is not None else None
+            except ProbeUnavailable:
+                bs = None
+            if bs is not None:
+                cur['final_state'] = {'hot_stored': list(bs['hot_stored']),
+                                      'cold_stored': list(bs['cold_stored']),
+                                      'hot_transfer': bs['hot_transfer'],
+                                      'cold_transfer': bs['cold_transfer'], 't': tr.now()}
         tr.cnt['c18_tier_calls'] += 1
     return f
 
